@@ -399,3 +399,32 @@ func (h *H) content(n int) []byte {
 	}
 	return out
 }
+
+// writePieces hands the pieces to w the way io.Copy does: through ONE scratch buffer that is overwritten
+// after every Write (an io.Writer must not retain p or modify it)
+func writePieces(w io.Writer, pieces [][]byte) error {
+	max := 0
+	for _, p := range pieces {
+		if len(p) > max {
+			max = len(p)
+		}
+	}
+	scratch := make([]byte, max)
+	for _, p := range pieces {
+		copy(scratch, p)
+		n, e := w.Write(scratch[:len(p)])
+		if e != nil {
+			return e
+		}
+		if n != len(p) {
+			return fmt.Errorf("short write: %d of %d", n, len(p))
+		}
+		if !bytes.Equal(scratch[:len(p)], p) {
+			return fmt.Errorf("Write modified the caller's slice")
+		}
+		for i := range scratch {
+			scratch[i] = 0xee
+		}
+	}
+	return nil
+}
